@@ -231,6 +231,11 @@ Theorem C11_struct_laws_hold_for_the_model : StructLaws cir_sem cir_ip_ok.
 Proof. exact cir_struct_laws. Qed.
 Print Assumptions C11_struct_laws_hold_for_the_model.
 
+(* the heap invariants hold for the empty module (the starting point of every generated IR) *)
+Theorem C11_heap_invariants_hold_initially : UInv empty_module /\ TInv empty_module.
+Proof. exact inv_empty_module. Qed.
+Print Assumptions C11_heap_invariants_hold_initially.
+
 Theorem C11_laws_satisfiable :
   FlagLaws toy_sem /\ LiveLaws toy_sem (fun _ => True) (fun _ _ => True) (fun _ _ => True) (fun _ => True) (fun _ _ => True) /\ EvLaws toy_sem.
 Proof. exact (conj toy_flag_laws (conj toy_live_laws toy_ev_laws)). Qed.
